@@ -19,7 +19,8 @@ MISMATCH_BUDGET = 0.0
 RULE = ('random timing-valid sequences (1-12 blocks, all event kinds, random system) written with every combination of '
         'create_signature x remove_duplicates; oracle on the bytes of the file: MD5 of everything before "\\n[SIGNATURE]" equals '
         'the Hash line, the return value of write() and signature_value after write and after read; no section and None '
-        'without signature. The extracted Coq model re-derives the file from (body, hash) and re-parses the real file '
+        'without signature; 0-2 follow-up writes with fresh flags on the same object and on the object that read the file; '
+        'three files above 1 MiB per run (oracle only). The extracted Coq model re-derives the file from (body, hash) and re-parses the real file '
         '(body length, type, hash compared). distinct = distinct file contents; non-trivial = signed files')
 TRUSTED = ['hashlib.md5, text-mode newline handling and utf-8 encoding are runtime behaviour (sampled)',
            'a digest consisting only of characters float() accepts would be parsed as a number by the reader '
@@ -29,36 +30,19 @@ ASSUMPTIONS = ['the body written by write() never contains the text "[SIGNATURE]
 MARK = b'\n[SIGNATURE]\n'
 
 
-def one_case(ctx, rng, n):
-    import pypulseq as pp
-    seq, stored = seqgen.random_sequence(rng, n_blocks=rng.randint(1, 8))
-    if not stored:
-        return None
-    sigflag = rng.random() < 0.8
-    dedup = rng.random() < 0.7
-    case = {'index': n, 'create_signature': sigflag, 'remove_duplicates': dedup, 'blocks': len(stored)}
-    with tempfile.TemporaryDirectory(prefix='pvC03') as d:
-        fn = os.path.join(d, 'a.seq')
-        try:
-            ret = seq.write(fn, create_signature=sigflag, remove_duplicates=dedup)
-        except AssertionError:
-            ctx.count('skipped.write_assertion')
-            return None
-        data = open(fn, 'rb').read()
-        s2 = pp.Sequence()
-        s2.read(fn)
-    ctx.evaluated(hashlib.sha1(data).hexdigest(), nontrivial=sigflag)
-    ctx.count('signed' if sigflag else 'unsigned')
-    ctx.count('dedup' if dedup else 'nodedup')
+def verify_write(ctx, case, seq, ret, data, sigflag, s2):
+    """the property's predicate on one written file; returns the md5 (signed), '' (unsigned ok) or None (failed)"""
     pos = data.find(MARK)
     if not sigflag:
         if pos != -1 or ret is not None or b'[SIGNATURE]' in data or b'Hash ' in data:
             ctx.fail('C03/unsigned-has-signature', case, {'ret': ret, 'pos': pos})
-        if getattr(s2, 'signature_value', '') not in ('', None):
+            return None
+        if s2 is not None and getattr(s2, 'signature_value', '') not in ('', None):
             ctx.fail('C03/unsigned-read-sets-hash', case, {'signature_value': s2.signature_value})
-        return (case, data, None)
+            return None
+        return ''
     if pos == -1:
-        ctx.fail('C03/no-section', case, {})
+        ctx.fail('C03/no-section', case, {'ret': ret})
         return None
     body = data[:pos]
     h = hashlib.md5(body).hexdigest()
@@ -72,7 +56,7 @@ def one_case(ctx, rng, n):
         bad = ('C03/return-value', {'ret': ret, 'md5_of_preceding': h})
     elif seq.signature_value != h or seq.signature_type != 'md5':
         bad = ('C03/stored-after-write', {'value': seq.signature_value, 'type': seq.signature_type})
-    elif str(s2.signature_value) != h or s2.signature_type != 'md5':
+    elif s2 is not None and (str(s2.signature_value) != h or s2.signature_type != 'md5'):
         bad = ('C03/stored-after-read', {'value': str(s2.signature_value), 'type': s2.signature_type, 'expected': h})
     elif not data.endswith(b'\n') or type_lines != ['Type md5']:
         bad = ('C03/trailer-format', {'type_lines': type_lines})
@@ -81,15 +65,86 @@ def one_case(ctx, rng, n):
     if bad:
         ctx.fail(bad[0], case, bad[1])
         return None
+    return h
+
+
+def big_sequence(rng):
+    """one block with a long free-form gradient: the written file exceeds 1 MiB (buffered / chunked I/O paths)"""
+    import numpy as np
+    import pypulseq as pp
+    system = pp.Opts()
+    n = rng.choice([90000, 160000, 250000])
+    nrng = np.random.default_rng(rng.randrange(1 << 30))
+    w = np.cumsum(nrng.uniform(-1, 1, n)) * 10.0
+    g = pp.make_arbitrary_grad('x', w, first=0.0, last=0.0, system=system, max_grad=1e15, max_slew=1e15)
+    seq = pp.Sequence(system)
+    seq.add_block(g)
+    return seq, [1]
+
+
+def one_case(ctx, rng, n, big=False):
+    import pypulseq as pp
+    if big:
+        seq, stored = big_sequence(rng)
+    else:
+        seq, stored = seqgen.random_sequence(rng, n_blocks=rng.randint(1, 8))
+    if not stored:
+        return None
+    sigflag = rng.random() < 0.8
+    dedup = rng.random() < 0.7
+    follow = [(rng.choice(['same', 'reread']), rng.random() < 0.5, rng.random() < 0.7) for _ in range(rng.choice([0, 1, 2]))]
+    case = {'index': n, 'big': big, 'create_signature': sigflag, 'remove_duplicates': dedup, 'blocks': len(stored),
+            'follow_up_writes': follow}
+    with tempfile.TemporaryDirectory(prefix='pvC03') as d:
+        fn = os.path.join(d, 'a.seq')
+        try:
+            ret = seq.write(fn, create_signature=sigflag, remove_duplicates=dedup)
+        except AssertionError:
+            ctx.count('skipped.write_assertion')
+            return None
+        data = open(fn, 'rb').read()
+        s2 = pp.Sequence()
+        s2.read(fn)
+        ctx.evaluated(hashlib.sha1(data).hexdigest(), nontrivial=sigflag)
+        ctx.count('signed' if sigflag else 'unsigned')
+        ctx.count('dedup' if dedup else 'nodedup')
+        if big:
+            ctx.count('big_file_bytes_%dMiB' % (len(data) >> 20))
+        h = verify_write(ctx, case, seq, ret, data, sigflag, s2)
+        if h is None:
+            return None
+        # history: the same object (which now carries, or does not carry, a signature) and the object that read the file
+        # are written again with fresh flags; every one of these writes must satisfy the same statement
+        for k, (who, sf, dd) in enumerate(follow):
+            obj = seq if who == 'same' else s2
+            fn2 = os.path.join(d, 'f%d.seq' % k)
+            try:
+                ret2 = obj.write(fn2, create_signature=sf, remove_duplicates=dd)
+            except AssertionError:
+                ctx.count('skipped.write_assertion')
+                continue
+            data2 = open(fn2, 'rb').read()
+            s3 = pp.Sequence()
+            s3.read(fn2)
+            ctx.count('follow_up.%s.%s_after_%s' % (who, 'signed' if sf else 'unsigned', 'signed' if sigflag else 'unsigned'))
+            ctx.evaluated(('follow', n, k, hashlib.sha1(data2).hexdigest()), nontrivial=True)
+            c2 = dict(case, failing_write={'index': k, 'object': who, 'create_signature': sf, 'remove_duplicates': dd})
+            if verify_write(ctx, c2, obj, ret2, data2, sf, s3) is None:
+                return None
     if n % 40 == 0:
-        ctx.sample({'case': case, 'file_bytes': len(data), 'hash': h, 'tail': tail[-60:]})
-    return (case, data, h)
+        ctx.sample({'case': case, 'file_bytes': len(data), 'hash': h})
+    if big:
+        return None          # oracle only: multi-megabyte byte lists are not sent to the model
+    return (case, data, h or None)
 
 
 def run(ctx):
     rng = ctx.rng('files')
     n_cases = {'quick': 150, 'thorough': 3000}[ctx.tier]
     pend = []
+    brng = ctx.rng('bigfiles')
+    for n in range({'quick': 3, 'thorough': 30}[ctx.tier]):
+        one_case(ctx, brng, 100000 + n, big=True)
     for n in range(n_cases):
         if ctx.out_of_time():
             ctx.notes.append('time budget reached after %d files' % n)
@@ -136,6 +191,11 @@ def flush(ctx, pend):
 
 
 def replay(ctx, case):
+    if case.get('big'):
+        brng = ctx.rng('bigfiles')
+        for n in range(case['index'] - 100000 + 1):
+            one_case(ctx, brng, 100000 + n, big=True)
+        return {'case': case, 'result': 'see failures'}
     rng = ctx.rng('files')
     r = None
     for n in range(case['index'] + 1):
